@@ -337,7 +337,7 @@ pub fn meta() -> super::Meta {
     super::Meta {
         id: ID,
         level: "exploration",
-        rule: "stateful: start state (empty or batch-constructed, optionally translated by 2^22 so the 1e-10 hash grid cannot key the coordinates) followed by generated insert / remove_vertex / Edit-API flips incl. flip_k1_insert and flip_k1_remove / repair (plain and advanced) / clone / as_triangulation_mut / policy setters; after every step selected vertices, and at the end every vertex, are probed on a clone with insertions at the duplicate-tolerance ladder (0, 5e-11, 9.9e-11, 1e-10, 1.1e-10, 1e-9, 1e-6), with a live UUID, and at the former positions of removed vertices; exact rational distance decides what each probe must answer; evaluations = probe insertions; non-trivial = history with a probe within tolerance of a live vertex or at a former position AND at least one successful non-insert mutation before it; distinct by the whole case",
+        rule: "stateful: start state (empty or batch-constructed, optionally translated by 2^22 so the 1e-10 hash grid cannot key the coordinates) followed by generated insert / remove_vertex / Edit-API flips incl. flip_k1_insert and flip_k1_remove / repair (plain and advanced) / clone / as_triangulation_mut / serde round trip of the Tds followed by from_tds_with_topology_guarantee (1 op in 25) / policy setters; after every step selected vertices, and at the end every vertex, are probed on a clone with insertions at the duplicate-tolerance ladder (0, 5e-11, 9.9e-11, 1e-10, 1.1e-10, 1e-9, 1e-6), with a live UUID, and at the former positions of removed vertices; exact rational distance decides what each probe must answer; evaluations = probe insertions; non-trivial = history with a probe within tolerance of a live vertex or at a former position AND at least one successful non-insert mutation before it; distinct by the whole case",
         assumptions: &[
             "duplicate tolerance 1e-10 on the Euclidean distance (insert_transactional); squared distances within 1e-6 relative of tol^2 are in band",
             "probes are made on a triangulation that has cells (during bootstrap the library documents a linear scan without index)",
